@@ -17,13 +17,16 @@ def run(check, tier):
     for L in range(1, depth + 1):
         for seq in itertools.product(ops, repeat=L):
             cases.append({"ops": list(seq)})
+            if L <= 2:
+                cases.append({"ops": list(seq), "same_mtime": True})
     r = rng(check.seed, "C11")
     extra = 600 if tier == "quick" else 20000
     for i in range(extra):
         L = r.randint(3, 6 if tier == "quick" else 8)
         # mostly adds
-        seq = [r.choice(ops[:12]) if r.random() < 0.6 else r.choice(ops) for _ in range(L)]
-        cases.append({"ops": seq})
+        nadd = sum(1 for o in ops if o["op"] == "add")
+        seq = [r.choice(ops[:nadd]) if r.random() < 0.6 else r.choice(ops) for _ in range(L)]
+        cases.append({"ops": seq, "same_mtime": r.random() < 0.4})
     results = run_cases("files_suite", "case_history", cases, chunk=16)
     lens = {}
     for res in results:
@@ -44,8 +47,8 @@ def run(check, tier):
     check.extra["history_lengths"] = lens
     check.extra["exhaustive_to_length"] = depth
     check.extra["exhaustive"] = True
-    check.extra["rule"] = ("all operation sequences up to the stated length over 21 operations {add(name in 2, source in 2, content in 3), mutate(source, content), "
-                           "remove(name), new instance} plus random longer ones; after every operation the API and the on-disk tree are compared with the "
+    check.extra["rule"] = ("all operation sequences up to the stated length over 27 operations {add(name in 2, source in 2, content in 4, two of them of equal length), mutate(source, content), "
+                           "remove(name), new instance} plus random longer ones; sequences up to length 2 and 40% of the random ones are also run with every source write keeping one fixed modification time (a copy that preserves timestamps); after every operation the API and the on-disk tree are compared with the "
                            "abstract store and with the Lean model; non-trivial = at least two adds")
     check.assumptions.append("SHA-256 is a parameter of the model (theorems hold for every hash function; c11_latest gives equality of bytes "
                              "under injectivity); the harness recomputes real SHA-256 of every file on disk")
